@@ -274,6 +274,9 @@ def run_tlc(module, cfg, workers=8, timeout=600, env_extra=None, tags=("CASE",),
             r.states = int(m.group(1))
             r.distinct = int(m.group(2))
     r.cases = r.lines.get("CASE", [])
+    for c in r.cases:
+        if isinstance(c, dict) and isinstance(c.get("shape"), list):
+            c["shape"] = "-".join(str(x) for x in c["shape"])         # family members named by a tuple (RecPair)
     if "Parsing or semantic analysis failed" in out or "*** Errors:" in out or "Fatal errors" in out:
         raise ToolError("TLC could not parse %s:\n%s" % (module, out[-3000:]))
     if "The first argument of Assert evaluated to FALSE" in out:
